@@ -52,7 +52,7 @@ def frame_cases(max_steps):
     @st.composite
     def s(draw):
         rec = draw(gen.frame_recipe(min_rows=0, max_rows=4, min_cols=0, max_cols=4, kinds=KINDS,
-                                    index_kinds=('auto', 'int', 'str', 'ih'), column_kinds=('auto', 'str', 'int', 'str')))
+                                    index_kinds=('auto', 'int', 'str', 'ih'), column_kinds=('auto', 'str', 'int', 'str', 'ih')))
         return {'rec': rec, 'steps': draw(st.lists(step(), min_size=1, max_size=max_steps))}
     return s()
 
@@ -67,8 +67,10 @@ def _new_label(f, v):
     cols = f.columns
     existing = list(cols)
     if cols.depth > 1:
-        base = tuple(existing[-1][:-1]) if existing else ('a',) * (cols.depth - 1)
-        last = existing[-1][-1] if existing else 'a'
+        if not existing:
+            return None  # an empty hierarchy keeps typed levels: no label can be invented for it
+        base = tuple(existing[-1][:-1])
+        last = existing[-1][-1]
         import datetime as _dt
         if isinstance(last, (np.datetime64, _dt.date)):
             cand = base + (np.datetime64(19300 + v, 'D'),)
@@ -479,6 +481,8 @@ def derive(f, s, stp):
             return f.roll(1, 1)
         if s == 'head':
             return f.head(2)
+        if s == 'insert' and f.columns.depth > 1 and any(isinstance(x, np.datetime64) for t in f.columns for x in t):
+            return None  # the string label used for the inserted column does not belong into a datetime-typed level
         if s == 'insert':
             return f.insert_after(sf.ILoc[0], sf.Series(np.arange(n), index=f.index, name='__i__' if f.columns.depth == 1 else ('__i__',) * f.columns.depth)) if m else None
         if s == 'concat':
